@@ -119,64 +119,7 @@ def _check(ctx: Ctx) -> None:
         ctx.check(ok, "KEEP", f"{FN}: a note is removed only when no allowed duration is left", function=FN,
                   construct="note removed under a condition other than `no allowed duration fits`",
                   message=f"`{short(g.test) if isinstance(g, ast.If) else '?'}`", file=fi.file, node=e)
-    flag = next((a for a in fi.params if "extend" in a), None)
-    if flag is None:
-        raise AnalysisError(f"{FN}: do_not_extend parameter not found")
-    removes = [c for c in ast.walk(fi.node) if isinstance(c, ast.Call) and call_method(c)[1] == "remove"]
-    noext = []
-    nxt = []
-    for c in removes:
-        g = next((a for a in ancestors(c) if isinstance(a, ast.If)), None)
-        if g is None:
-            continue
-        if flag in {n.id for n in ast.walk(g.test) if isinstance(n, ast.Name)}:
-            noext.append((c, g))
-        else:
-            nxt.append((c, g))
-    ctx.check(len(noext) >= 1, "NOEXT", f"{FN}: `{flag}` filter present", function=FN, construct=f"no removal guarded by {flag}", message="",
-              file=fi.file, node=fi.node)
-    for c, g in noext:
-        conj = [x for x in (g.test.values if isinstance(g.test, ast.BoolOp) and isinstance(g.test.op, ast.And) else [g.test])]
-        pos = [x for x in conj if isinstance(x, ast.Compare) and isinstance(x.ops[0], ast.Gt) and isinstance(x.comparators[0], ast.Constant)
-               and x.comparators[0].value == 0]
-        has_flag = any(isinstance(x, ast.Name) and x.id == flag for x in conj)
-        ok = bool(pos) and has_flag and isinstance(g.test, ast.BoolOp) and isinstance(g.test.op, ast.And)
-        # the positive quantity is value - current duration
-        if ok:
-            nz = Normaliser()
-            # definitions in force: simple assignments of every enclosing block that precede the test (outermost first)
-            chain_ = [a for a in ancestors(g) if isinstance(a, (ast.For, ast.While, ast.If, ast.FunctionDef))]
-            pre_ = []
-            node_ = g
-            for a in [g] + chain_:
-                blk_ = _block_of(a)
-                pre_ = [s for s in blk_ if isinstance(s, (ast.Assign, ast.AugAssign)) and s.lineno < a.lineno] + pre_
-            nz.run_block(pre_)
-            q = nz.norm(pos[0].left)
-            arg = nz.norm(c.args[0]) if c.args else None
-            d = (q - arg) if arg is not None else None
-            # value - (end - onset): two time atoms with coefficients +1 (onset) and -1 (end)
-            ok = d is not None and len(d.terms) == 2 and sorted(d.terms.values()) == [-1, 1] and all(".time" in a for a in d.atoms())
-        ctx.check(ok, "NOEXT", f"{FN}: with `{flag}` every value longer than the current duration is removed", function=FN,
-                  construct=f"{flag} filter does not remove exactly the values with a positive correction",
-                  message=f"`{short(g.test, 90)}`", file=fi.file, node=g)
-        # the filter runs for every allowed value: its loop iterates the full allowed list
-        lp = next((a for a in ancestors(c) if isinstance(a, ast.For)), None)
-        ctx.check(lp is not None and isinstance(lp.iter, ast.Name) and lp.iter.id == nvals, "NOEXT",
-                  f"{FN}: `{flag}` filter visits every allowed value", function=FN, construct=f"{flag} filter does not iterate the allowed list",
-                  message="", file=fi.file, node=g)
-    for c, g in nxt:
-        t = g.test
-        ok = isinstance(t, ast.Compare) and isinstance(t.ops[0], ast.Gt)
-        if ok:
-            nz = Normaliser()
-            nz.run_block([s for s in _block_of(g) if s.lineno < g.lineno])
-            l, r = nz.norm(t.left), nz.norm(t.comparators[0])
-            # left = end + value - (end - start) = start + value ; right = next onset
-            ok = any(a.endswith("[0].time") for a in r.atoms()) and len(r.terms) == 1
-        ctx.check(ok, "NEXT", f"{FN}: a value is discarded iff the note would run past the next onset of its pitch", function=FN,
-                  construct="fit test against the next note is not `end + correction > next onset`",
-                  message=f"`{short(t, 90)}`", file=fi.file, node=g)
+    filter_rules(ctx)
 
     # --- KEEP: non-note messages copied through
     out = output_list_name(fi.node)
@@ -222,6 +165,96 @@ def _check(ctx: Ctx) -> None:
     bad = MustFollow(trigger, discharge).run(fi.node)
     ctx.check(not bad, "SORT", f"{FN}: canonical re-sort after rewriting the event list", function=FN,
               construct="event list rewritten without a following canonical sort", message="", file=fi.file, node=bad[0][1] if bad else fi.node)
+
+
+def filter_rules(ctx: Ctx, only=None) -> None:
+    """NOEXT / NEXT: the two filters on the candidate values (shared with C09, whose bars are re-quantised shorten-only)."""
+    p = ctx.p
+    fi = p.func(FN)
+    ctx.analysed(fi)
+    nvals = fi.params[1]
+    flag = next((a for a in fi.params if "extend" in a), None)
+    if flag is None:
+        raise AnalysisError(f"{FN}: do_not_extend parameter not found")
+    removes = [c for c in ast.walk(fi.node) if isinstance(c, ast.Call) and call_method(c)[1] == "remove"]
+    noext = []
+    nxt = []
+    for c in removes:
+        g = next((a for a in ancestors(c) if isinstance(a, ast.If)), None)
+        if g is None:
+            continue
+        if flag in {n.id for n in ast.walk(g.test) if isinstance(n, ast.Name)}:
+            noext.append((c, g))
+        else:
+            nxt.append((c, g))
+    ctx.check(len(noext) >= 1, "NOEXT", f"{FN}: `{flag}` filter present", function=FN, construct=f"no removal guarded by {flag}", message="",
+              file=fi.file, node=fi.node)
+    for c, g in noext:
+        conj = [x for x in (g.test.values if isinstance(g.test, ast.BoolOp) and isinstance(g.test.op, ast.And) else [g.test])]
+        pos = [x for x in conj if isinstance(x, ast.Compare) and isinstance(x.ops[0], ast.Gt) and isinstance(x.comparators[0], ast.Constant)
+               and x.comparators[0].value == 0]
+        has_flag = any(isinstance(x, ast.Name) and x.id == flag for x in conj)
+        ok = bool(pos) and has_flag and isinstance(g.test, ast.BoolOp) and isinstance(g.test.op, ast.And)
+        # the positive quantity is value - current duration
+        if ok:
+            nz = Normaliser()
+            # definitions in force: simple assignments of every enclosing block that precede the test (outermost first)
+            chain_ = [a for a in ancestors(g) if isinstance(a, (ast.For, ast.While, ast.If, ast.FunctionDef))]
+            pre_ = []
+            node_ = g
+            for a in [g] + chain_:
+                blk_ = _block_of(a)
+                pre_ = [s for s in blk_ if isinstance(s, (ast.Assign, ast.AugAssign)) and s.lineno < a.lineno] + pre_
+            nz.run_block(pre_)
+            q = nz.norm(pos[0].left)
+            arg = nz.norm(c.args[0]) if c.args else None
+            d = (q - arg) if arg is not None else None
+            # value - (end - onset): two time atoms with coefficients +1 (onset) and -1 (end)
+            ok = d is not None and len(d.terms) == 2 and sorted(d.terms.values()) == [-1, 1] and all(".time" in a for a in d.atoms())
+        ctx.check(ok, "NOEXT", f"{FN}: with `{flag}` every value longer than the current duration is removed", function=FN,
+                  construct=f"{flag} filter does not remove exactly the values with a positive correction",
+                  message=f"`{short(g.test, 90)}`", file=fi.file, node=g)
+        # nothing else may stand between a candidate value and this filter: the path condition of the removal, up to the
+        # per-note loop, consists of the flag, the positive-correction test and (optionally) a membership test only
+        extra = []
+        node_ = c
+        for a in ancestors(c):
+            if isinstance(a, ast.For) and not (isinstance(a.iter, ast.Name) and a.iter.id == nvals):
+                break
+            if isinstance(a, ast.If):
+                in_body = any(node_ is x or node_ in ast.walk(x) for x in a.body)
+                if not in_body:
+                    extra.append(f"only when `{short(a.test, 60)}` is false")
+                else:
+                    for x in (a.test.values if isinstance(a.test, ast.BoolOp) and isinstance(a.test.op, ast.And) else [a.test]):
+                        is_flag = isinstance(x, ast.Name) and x.id == flag
+                        is_pos = isinstance(x, ast.Compare) and isinstance(x.ops[0], ast.Gt) and isinstance(x.comparators[0], ast.Constant) and x.comparators[0].value == 0
+                        is_member = isinstance(x, ast.Compare) and isinstance(x.ops[0], ast.In)
+                        if not (is_flag or is_pos or is_member):
+                            extra.append(f"only when `{short(x, 60)}`")
+            node_ = a
+        ctx.check(not extra, "NOEXT", f"{FN}: the `{flag}` filter applies to every note", function=FN,
+                  construct=f"{flag} filter is skipped for some notes",
+                  message=f"the removal of lengthening values runs {', '.join(extra)}: other notes can still be extended although extension is disabled",
+                  file=fi.file, node=g)
+        # the filter runs for every allowed value: its loop iterates the full allowed list
+        lp = next((a for a in ancestors(c) if isinstance(a, ast.For)), None)
+        ctx.check(lp is not None and isinstance(lp.iter, ast.Name) and lp.iter.id == nvals, "NOEXT",
+                  f"{FN}: `{flag}` filter visits every allowed value", function=FN, construct=f"{flag} filter does not iterate the allowed list",
+                  message="", file=fi.file, node=g)
+    for c, g in nxt:
+        t = g.test
+        ok = isinstance(t, ast.Compare) and isinstance(t.ops[0], ast.Gt)
+        if ok:
+            nz = Normaliser()
+            nz.run_block([s for s in _block_of(g) if s.lineno < g.lineno])
+            l, r = nz.norm(t.left), nz.norm(t.comparators[0])
+            # left = end + value - (end - start) = start + value ; right = next onset
+            ok = any(a.endswith("[0].time") for a in r.atoms()) and len(r.terms) == 1
+        ctx.check(ok, "NEXT", f"{FN}: a value is discarded iff the note would run past the next onset of its pitch", function=FN,
+                  construct="fit test against the next note is not `end + correction > next onset`",
+                  message=f"`{short(t, 90)}`", file=fi.file, node=g)
+
 
 
 def _is_copy_of(e: ast.AST, name: str) -> bool:
